@@ -246,6 +246,12 @@ def run(s):
     s.canary("C04.canary.isotropy_with_c44=(c11+c12)/2", lambda: canary_iso(keys, c_))
     # ---------------- plumbing: bounded stand-in with symbolic values
     plumbing(s, tasks, keys, rnd)
+    # the isotropy / covariance lemmas above ASSUME the C01 contract of the non-shear classes (prefactors 1/(5 e_i e_j), 1/(15 e_i e_j), 1/(3 e); which strain
+    # fraction goes with which axis).  nonshear.py is one of this property's anchored files: the assumption is discharged here on the real classes by the
+    # corresponding obligations of C01 (same obligation code, registered under this property)
+    from props import C01
+    C01.run(core.SubSession(s, lambda n: n.replace("C01.", "C04.nonshear_contract."), lambda n: ".prefactors" in n or ".mode_gamma[" in n or "value_isothermal" in n
+                            or n.endswith(".chain")))
     s.min_obligations = 11
 
 
